@@ -546,10 +546,19 @@ func CheckLedgerAgainstModel(leg *ledgerpkg.Ledger, m *LedgerModel, fs *FindingS
 		allTx[l] = m.TxIDs[l]
 		ord = append(ord, l)
 	}
+	seenTx := map[string]bool{}
+	for _, l := range ord {
+		seenTx[string(allTx[l])] = true
+	}
 	for _, b := range m.Blocks {
-		if len(b.TxIDs) > 0 {
-			l := "cb:" + b.Label
-			allTx[l] = b.TxIDs[0]
+		// every transaction of every block (a transaction may sit in blocks of several branches)
+		for k, id := range b.TxIDs {
+			if seenTx[string(id)] {
+				continue
+			}
+			seenTx[string(id)] = true
+			l := fmt.Sprintf("tx%d:%s", k, b.Label)
+			allTx[l] = id
 			ord = append(ord, l)
 		}
 	}
